@@ -1070,3 +1070,14 @@ MANI["C15"] = {
             "'all continue' (site x answer) is enumerated (a symbolic program makes the packet heap symbolic and symex does not finish); "
             "parse_cif's block loop, lists / tables inside values, and the real scanner are outside this seam; composition over a "
             "document is by the production contracts (argued)"}
+
+# ---- additions to the level texts for queries shared between properties / added late (kept separate so that each sentence stays next to the change that motivated it)
+MANI["C03"]["text"] += (" Also: the byte-stage reader ustream_read_chars (C08), the start-up of cif_parse_internal (error-callback text readable), and the "
+                        "list / table productions on malformed token scripts under the same memory checks.")
+MANI["C05"]["text"] += " Also the iterator queries of C06 whose call sequence contains a refused update: nothing of the refused update stays."
+MANI["C08"]["text"] += (" Byte stage: the real ustream_read_chars over a small byte buffer with symbolic read sizes and a one-unit-per-byte converter "
+                        "model delivers every unit once, in order.")
+MANI["C09"]["text"] += " Table / packet key matching and key-spelling bookkeeping are decided against a map model (the C19 map queries, re-listed here)."
+MANI["C18"]["text"] += (" Admissibility of the recommended presentation: the dispatch queries of C02 / C13 (real cif_analyze_string + write_char, the "
+                        "writers replaced by stubs asserting the conditions under which each presentation reads back).")
+MANI["C12"]["text"] += " Grammatical classes for lists and tables (unterminated, missing value, stray value) are production queries over token scripts of h01_value.c."
